@@ -325,6 +325,28 @@ func (g *gen) expr(t string, depth int) *Expr {
 	if g.cfg.Faults > 0 && depth > 0 && r.Float64() < g.cfg.Faults/3 {
 		return g.faultyExpr(t, depth)
 	}
+	if g.cfg.RichExpr && depth > 0 && t != "s" && r.Intn(8) == 0 {
+		// binary operations whose only variable reads and function calls sit under a unary minus or
+		// a `not` (the operation is not a constant, however constant its operands look one level down)
+		title := eStr(g.titles[r.Intn(len(g.titles))])
+		if t == "n" {
+			return []*Expr{
+				eBin("add", g.numLit(), eNeg(g.varOf("n"))),
+				eBin("mul", eNeg(g.varOf("n")), eNum(2, 1)),
+				eBin("sub", eNum(10, 1), eNeg(eCall("visited_count", title))),
+				eBin("add", eNeg(eNeg(g.varOf("n"))), eNum(1, 2)),
+				eBin("sub", eNum(100, 1), eNeg(eCall("p1", g.varOf("n")))),
+			}[r.Intn(5)]
+		}
+		return []*Expr{
+			eBin("and", eBool(true), eNot(g.varOf("b"))),
+			eBin("eq", eNot(g.varOf("b")), eBool(true)),
+			eBin("xor", eNot(eCall("visited", title)), eBool(false)),
+			eBin("or", eBool(false), eNot(eNot(g.varOf("b")))),
+			eBin("lt", eNeg(g.varOf("n")), eNum(0, 1)),
+			eBin("ne", eNot(eCall("p2", g.varOf("b"))), eBool(false)),
+		}[r.Intn(6)]
+	}
 	leaf := depth <= 0 || r.Intn(3) == 0
 	switch t {
 	case "n":
